@@ -94,7 +94,9 @@ pub fn run(ctx: &Ctx) -> i32 {
         let mut rep = Report::new();
         let mut rng = Rng::new(ctx.seed, "C14", shard as u64);
         let cfg = GenCfg::default();
-        let names = ["A", "yes", "True", "Null", "n", "y", "on", "I2", "sel_1", "e1"];
+        // (neighbours differ only in case, in leading zeros or in a trailing zero: names a
+        // "natural" ordering or a case-folding map would identify)
+        let names = ["A", "A0", "A00", "a", "yes", "True", "Null", "n", "y", "on", "I2", "I02", "I10", "sel_1", "sel1", "sel01", "e1"];
         for n in 0..per {
             if ctx.expired() {
                 rep.truncated = true;
@@ -132,6 +134,19 @@ pub fn run(ctx: &Ctx) -> i32 {
             let leaves = gen::collect_leaves(&ast);
             ast.tp = (0..rng.below(3)).map(|_| gen::gen_doc(&mut rng, &leaves)).collect();
             ast.tn = (0..rng.below(3)).map(|_| gen::gen_doc(&mut rng, &leaves)).collect();
+            // a field literally named like YAML's merge key, in examples and (rarely) in a rule
+            if rng.chance(12) {
+                let v = if rng.chance(50) { DVal::s("EOF") } else { DVal::obj(vec![("zz", DVal::UInt(1))]) };
+                for d in ast.tp.iter_mut().chain(ast.tn.iter_mut()) {
+                    d.set("<<", v.clone());
+                }
+                rep.count("merge_key_examples");
+            }
+            if rng.chance(4) {
+                if let Some((_, Ident::Map(es))) = ast.idents.first_mut() {
+                    es.push((Key::plain("<<"), RVal::Str("EOF".into())));
+                }
+            }
             let Some(text) = ast.to_text() else {
                 rep.count("emitter_self_check_failed");
                 continue;
@@ -157,6 +172,10 @@ pub fn run(ctx: &Ctx) -> i32 {
                     let vv: Vec<bool> = maps.iter().map(|m| eng::matches(&rv, m).unwrap_or(true)).collect();
                     if vv != base || eng::printed(&rv) != eng::printed(&rule) {
                         rep.violation("text-vs-value", "c14-text-vs-value", "Rule::from_str and Rule::from_value of the same YAML disagree", json!({"rule": text}));
+                    } else if rv.true_positives != rule.true_positives || rv.true_negatives != rule.true_negatives {
+                        rep.violation("text-vs-value", "c14-text-vs-value-examples", "Rule::from_str and Rule::from_value of the same YAML carry different examples", json!({"rule": text}));
+                    } else if eng::validate(&rv).ok() != eng::validate(&rule).ok() {
+                        rep.violation("text-vs-value", "c14-text-vs-value-validate", "Rule::from_str and Rule::from_value of the same YAML validate differently", json!({"rule": text}));
                     }
                 }
                 _ => rep.violation("text-vs-value", "c14-text-vs-value-load", "Rule::from_value rejects a rule that Rule::from_str accepts", json!({"rule": text})),
